@@ -306,3 +306,15 @@ package dawn
 //@   modifies heap
 //@   loop 0: invariant paths != nil && proj != nil
 //@   loop 0: invariant visited-marked: forall k: string :: seen(k) ==> has(paths, tipath(proj, tlabel(proj.targets[k].target)))
+
+// C14, inductive step of "no ancestor of a marked path is swept": if the marked set is closed under
+// parent up to the root (GC$1#post:parent-closed) then the parent of a marked path below the root is
+// marked, hence never handed to RemoveAll (GC$2#callsite:only-unmarked).
+//@ lemma C14-keep int <<<
+//@ (declare-fun marked (Str) Bool) (declare-const root Str) (declare-const q Str)
+//@ (assert (forall ((x Str)) (! (=> (marked x) (or (marked (pdir x)) (= (pdir x) root) (= (pdir x) x))) :pattern ((marked x)))))
+//@ (assert (marked q))
+//@ (assert (not (= (pdir q) root)))
+//@ (assert (not (= (pdir q) q)))
+//@ (assert (not (marked (pdir q))))
+//@ >>>
